@@ -662,7 +662,18 @@ func (m *Machine) binop(op token.Token, x, y Value, t types.Type, xt types.Type)
 		} else if ex, ok := xv.v.(*ErrV); ok {
 			ey, ok2 := yv.v.(*ErrV)
 			eq = ok2 && ex == ey
+		} else if !types.Identical(xv.typ, yv.typ) {
+			eq = false
 		} else {
+			// same dynamic type: compare the payloads (scalars, strings, pointers, comparable structs)
+			switch xv.v.(type) {
+			case Sc, StrV, Ptr, StructV:
+				r := m.binop(token.EQL, xv.v, yv.v, types.Typ[types.Bool], xv.typ)
+				if op == token.NEQ {
+					return Sc{c.Not(sc(r))}
+				}
+				return r
+			}
 			panic("iface compare unsupported")
 		}
 		if op == token.NEQ {
@@ -1395,8 +1406,12 @@ func (m *Machine) execSlice(s *State, f *Frame, x *ssa.Slice) []*State {
 		hi = sc(s.get(x.High))
 	}
 	if x.Max != nil {
-		s.fail("unsupported", "3-index slice")
-		return nil
+		mx := sc(s.get(x.Max))
+		if !mx.konst || int(mx.cv) > cp {
+			s.fail("unsupported", "3-index slice with a symbolic or out-of-range max")
+			return nil
+		}
+		cp = int(mx.cv) // s[l:h:max]: capacity limited to max-l
 	}
 	if lo.w < 64 {
 		lo = c.SignExt(lo, 64)
